@@ -185,3 +185,130 @@ class UnitMulData(Contract):
 
 
 ALL.append("UnitMulData")
+
+
+class _CoerceSeq(Contract):
+    """_coerce_iterable_units on a python list (the constructor's and the binary ufuncs' route for a
+    list of quantities).  C16: 'a list of quantities in mixed commensurable units is coerced to the
+    first element's unit with values converted'; C01: members of different dimensions are refused and
+    units are never silently dropped.  The list is symbolic in its members' units (scale, zero point,
+    dimension) and readings; the array abstraction's arbitrary element is an arbitrarily chosen member."""
+    name = "unyt.array._coerce_iterable_units"
+    properties = ("C16", "C01", "C08")
+    callsite_disabled = True
+    config = ("Q", "Q")
+    may_raise = ()
+
+    def formals(self, it):
+        ms = []
+        for i, k in enumerate(self.config):
+            if k == "Q":
+                q = N.make_unyt_array(it, "m%d" % i, cls="unyt_quantity")
+                it.assume(to_z3(N.arr_scalar(q)))
+                ms.append(q)
+            else:
+                ms.append(it.fresh_real("m%d_number" % i))
+        return {"input_object": ms}
+
+    def track(self, it, a):
+        from pyvc.unyt_domain import track_unit
+        for i, m in enumerate(a.input_object):
+            if N.is_unyt_array(m):
+                N.track_array(it, "m%d" % i, m)
+                track_unit(it, "u%d" % i, m.fields["units"])
+
+    def requires(self, it, a):
+        P = it.domain.prefix_table(it)
+        out = []
+        for i, m in enumerate(a.input_object):
+            if N.is_unyt_array(m):
+                u = m.fields["units"]
+                out.append(("unit of member %d consistent with its table, non-empty string" % i,
+                            z3.And(S.unit_wf(u, P), z3.Length(S.ustr(u)) >= 1)))
+                k = to_z3(N.arr_kind(m))
+                out.append(("member %d holds real numbers" % i, z3.Or(k == N.sv("f"), k == N.sv("i"), k == N.sv("u"))))
+        return out
+
+    def snapshot(self, it, a):
+        return [snapshot_array(m) if N.is_unyt_array(m) else None for m in a.input_object]
+
+    def quantities(self, a):
+        return [m for m in a.input_object if N.is_unyt_array(m)]
+
+    def mismatch(self, it, a):
+        qs = self.quantities(a)
+        u0 = qs[0].fields["units"]
+        return z3.Or(*[z3.Not(S.dim_eq(S.dim(u0), S.dim(q.fields["units"]))) for q in qs[1:]]) \
+            if len(qs) > 1 else z3.BoolVal(False)
+
+    def raises(self, it, a):
+        return {"IterableUnitCoercionError": self.mismatch(it, a)}
+
+    def ensures(self, it, a, r, old):
+        from .ufunc import units_equal
+        P = it.domain.prefix_table(it)
+        if not N.is_unyt_array(r):
+            return [("C01/C16: the units of the members are not dropped (the result is a unyt_array)", False)]
+        ru = r.fields["units"]
+        u0 = a.input_object[0].fields["units"]
+        out = [("C16: the result is labelled with the first member's unit",
+                z3.And(S.scale(ru) == S.scale(u0), S.offset(ru) == S.offset(u0), S.dim_eq(S.dim(ru), S.dim(u0)))),
+               ("C16: the result owns fresh memory",
+                all(N.arr_buf(r) is not s["buf"] for s in old if s is not None))]
+        member = getattr(N.arr_buf(r), "member", None)
+        if member is None:
+            return out + [("C16: the result holds the members' numbers", False)]
+        i, _m = member
+        ui, e = old[i]["units"], old[i]["elem"]
+        for s_ in old:
+            it.ctx.instantiate(s_["elem"], z3.RealVal(0), z3.RealVal(1))
+        # units equal under Unit.__eq__ (isclose on scale and zero point) are identified by the library
+        all_equal = z3.And(*[units_equal(it, u0, q.fields["units"]) for q in self.quantities(a)[1:]])
+        exact = z3.Or(z3.Not(all_equal),
+                      z3.And(S.scale(ui) == S.scale(u0), S.eff_offset(ui, P) == S.eff_offset(u0, P)))
+        out.append(("C16/C08: every member's value is converted to the first member's unit (same physical "
+                    "quantity, zero point included)",
+                    z3.Implies(exact, S.SI(N.arr_elem(r), ru, P) == S.SI(e, ui, P))))
+        for n, (m_, s_) in enumerate(zip(a.input_object, old)):
+            if s_ is not None:
+                out += unchanged("member %d" % n, m_, s_)
+        return out
+
+    def on_raise(self, it, a, old, exc):
+        out = []
+        for n, (m_, s_) in enumerate(zip(a.input_object, old)):
+            if s_ is not None:
+                out += unchanged("member %d" % n, m_, s_)
+        return out
+
+    def canary(self, it, a, r, old):
+        return z3.BoolVal(False)
+
+
+class CoerceSeqQQ(_CoerceSeq):
+    tag = "[Q,Q]"
+    config = ("Q", "Q")
+
+
+class CoerceSeqQQQ(_CoerceSeq):
+    tag = "[Q,Q,Q]"
+    config = ("Q", "Q", "Q")
+
+
+class CoerceSeqNumberFirst(_CoerceSeq):
+    """a plain number followed by quantities: the library refuses (AttributeError); whatever it does, it
+    must not hand back a bare array with the quantities' units dropped"""
+    tag = "[s,Q]"
+    config = ("s", "Q")
+    may_raise = ("AttributeError", "IterableUnitCoercionError")
+    expect_return = False
+
+    def raises(self, it, a):
+        return {}
+
+    def ensures(self, it, a, r, old):
+        return [("C01: a sequence with a quantity in it is never coerced to a bare array (units dropped)",
+                 N.is_unyt_array(r))]
+
+
+ALL += ["CoerceSeqQQ", "CoerceSeqQQQ", "CoerceSeqNumberFirst"]
